@@ -78,6 +78,9 @@ type VOrder struct{ LE bool }
 // VGlobal is the address of a package-level variable.
 type VGlobal struct{ G *ssa.Global }
 
+// VMoved is the value of a whole bytes.Buffer loaded from a temporary that has no other use.
+type VMoved struct{ Obj *Obj }
+
 // VOpaque stands for a value the model does not interpret.
 type VOpaque struct {
 	Why string
@@ -100,10 +103,10 @@ type Content struct {
 	Seq    *Term         // array / buffer unread bytes
 	SeqVar *Term         // buffer: the variable that Seq (== SeqOf) was substituted for by normalizeBuffers
 	SeqOf  *Term
-	Epoch  int           // buffer modification epoch
-	Tag    *Term         // dyn: dynamic type tag
-	MV     *Term         // dyn: abstract message value
-	Dom    *Term         // map: name of domain function (as var-like app prefix)
+	Epoch  int   // buffer modification epoch
+	Tag    *Term // dyn: dynamic type tag
+	MV     *Term // dyn: abstract message value
+	Dom    *Term // map: name of domain function (as var-like app prefix)
 	MapID  string
 	Held   string // mutex: "none" "R" "W"
 }
@@ -139,9 +142,10 @@ type State struct {
 	callOrd      map[string]int   // per callee short name: calls seen so far on this path
 	lenv         map[string]Value // loop-carried names visible to contract expressions
 	lenvOwner    *ssa.BasicBlock
-	locals       map[string]Value // source-level local variables (from ssa DebugRef)
-	domain       []*Term          // message layer: callee ok-domains assumed on this path
-	canon        []*Term          // message layer: round-trip domain collected on this path
+	reslice      map[*ssa.Phi]VSlice // loop-carried slices the loop only narrows: their value at loop entry (immutable map, replaced on write)
+	locals       map[string]Value    // source-level local variables (from ssa DebugRef)
+	domain       []*Term             // message layer: callee ok-domains assumed on this path
+	canon        []*Term             // message layer: round-trip domain collected on this path
 	calls        []*CallRecord
 	marks        []string
 	written      map[string]bool // receiver fields stored to (objID.field)
@@ -166,6 +170,7 @@ func (s *State) clone() *State {
 		callOrd:      map[string]int{},
 		lenv:         s.lenv,
 		lenvOwner:    s.lenvOwner,
+		reslice:      s.reslice,
 		locals:       s.locals,
 		domain:       append([]*Term{}, s.domain...),
 		canon:        append([]*Term{}, s.canon...),
